@@ -111,6 +111,7 @@ func (t *Table) JSON() map[string]interface{} {
 		}
 		out[s] = map[string]interface{}{
 			"c":  codes,
+			"n":  utf8.RuneCountInString(s),
 			"p":  segs,
 			"i":  idx,
 			"op": len(s) > 0 && s[0] == '$',
